@@ -1305,6 +1305,7 @@ class Interp(object):
             st.assume(k < n)
             self._assume_inv(spec, env, k, st)
             st.prune()
+            env.vars["__k__"] = k
             self.assign(s.target, item(k), env, func)
             if spec.on_iter is not None:
                 spec.on_iter(env, k, st)
